@@ -29,7 +29,15 @@ type api struct {
 }
 
 // items of an earlier Set on the leaves of the next value.e2em (see value.e2eprev)
-var pendingPrev []leafItem
+// realState is the state of ONE script execution (fw calls NewReal per case; cases run concurrently in
+// worker goroutines of one process, so none of this may be a package variable)
+type realState struct {
+	pendingPrev []leafItem
+}
+
+func (st *realState) Exec(line string) string { return st.exec(line) }
+
+func (st *realState) Close() {}
 
 func fromV2(tv *configv2.TypedValue) ntv {
 	return ntv{Bytes: tv.Bytes, Type: int32(tv.Type), Opts: tv.TypeOpts}
@@ -221,7 +229,7 @@ func jsonAnswer(a *api, t ntv, rfc bool, hideFloat bool) string {
 	return txt
 }
 
-func exec(line string) (out string) {
+func (st *realState) exec(line string) (out string) {
 	defer func() {
 		if r := recover(); r != nil {
 			out = "panic"
@@ -259,7 +267,7 @@ func exec(line string) (out string) {
 			}
 			items = append(items, leafItem{g: g, o: o})
 		}
-		pendingPrev = items
+		st.pendingPrev = items
 		return "ok"
 	}
 	if op == "value.e2em" {
@@ -276,7 +284,9 @@ func exec(line string) (out string) {
 			}
 			items = append(items, leafItem{g: g, o: o})
 		}
-		return e2em(items)
+		prev := st.pendingPrev
+		st.pendingPrev = nil
+		return e2em(items, prev)
 	}
 	if op == "value.e2e" {
 		if len(args) != 2 {
